@@ -100,6 +100,9 @@ func cryptoConcurrent(c *core.Ctx, k *core.Case, mac bool) {
 			if j == 3 {
 				n = r.Range(100, 300)
 			}
+			if j == 0 && w%2 == 0 {
+				n = 0 // an empty payload / message: the shortest request there is
+			}
 			jb := cryptoJob{key: keys[w%nk], count: r.Uint32(), bearer: uint32(r.Intn(32)), dir: uint32(r.Intn(2)), in: r.Bytes(n), nbits: 8 * n}
 			if mac {
 				switch alg {
